@@ -13,7 +13,7 @@ import numpy as np
 from . import netgen, refmodel as rm, seeds, trace as tr
 
 NAMES = ["S0", "S1", "S2", "S3", "S4", "S5"]
-SIM_MODES = ["det", "ssa", "safe", "volume", "delay"]
+SIM_MODES = ["det", "ssa", "safe", "volume", "delay", "delayvolume"]
 
 
 # ------------------------------------------------------------------ generation
@@ -101,14 +101,18 @@ def base_model(r, n_species=None, n_rxn=None, delays=True, rules=True):
     return m
 
 
-def add_species_rule(r, m):
+def add_species_rule(r, m, allow_ode=False):
     """A repeated rule assigning a fresh species (never a reactant/product). Returns the rule or None."""
     free = [s for s in NAMES if s not in m["species"]]
     if not free:
         return None
     tgt = free[-1]
     src = [s for s in m["species"] if s not in [ru["target"] for ru in m["rules"]]] or m["species"][:1]
-    if r.random() < 0.5:
+    u = r.random()
+    if allow_ode and u < 0.25:
+        rule = {"type": "ode", "target": tgt, "expr": ["+", ["num", netgen.nice(r.uniform(0.1, 2.0))], ["*", ["num", 0.1], ["sp", r.choice(src)]]],
+                "freq": "dt"}
+    elif u < 0.5:
         rule = {"type": "additive", "target": tgt, "expr": [r.choice(src) for _ in range(r.randint(1, 2))], "freq": "repeated"}
     else:
         rule = {"type": "assignment", "target": tgt,
@@ -126,12 +130,12 @@ def sim_op(r, shadow, modes=SIM_MODES):
     lam = max(netgen.initial_lambda(shadow), 0.3)
     horizon = netgen.cap_horizon(shadow, r.choice([3, 15, 60]) / lam, max_events=1500)
     k = max(1, min(64 * 10, int(round(horizon / (npts - 1) * 64))))
-    if mode == "delay" and not any(x.get("delay") for x in shadow["reactions"]):
-        mode = "ssa"
+    if mode in ("delay", "delayvolume") and not any(x.get("delay") for x in shadow["reactions"]):
+        mode = "ssa" if mode == "delay" else "volume"
     return ["simulate", mode, r.choice(["model", "iface"]), r.getrandbits(48) | 1, npts, k / 64.0, netgen.nice(r.uniform(0.3, 4.0), 3)]
 
 
-def gen_history(r, n_ops, alphabet, param_rule_stratum=False):
+def gen_history(r, n_ops, alphabet, param_rule_stratum=False, allow_ode=False):
     """Generates (base model, op list). The shadow evolution is simulated here so that every op is valid when it runs."""
     for _attempt in range(200):
         shadow = base_model(r)
@@ -228,7 +232,7 @@ def gen_history(r, n_ops, alphabet, param_rule_stratum=False):
         elif kind == "create_rule":
             if len(shadow["rules"]) >= 3:
                 continue
-            rule = add_species_rule(r, shadow)
+            rule = add_species_rule(r, shadow, allow_ode)
             if rule is None:
                 continue
             ops.append(["create_rule", copy.deepcopy(rule), shadow["init"][rule["target"]]])
@@ -310,6 +314,10 @@ def simulate(M, iface, op, other=None):
     elif mode == "delay":
         kw["stochastic"] = True
         kw["delay"] = True
+    elif mode == "delayvolume":
+        kw["stochastic"] = True
+        kw["delay"] = True
+        kw["volume"] = v0
     R_.py_seed_random(seed)
     try:
         with warnings.catch_warnings():
